@@ -449,7 +449,7 @@ def composites_over(inner: t.List[t.Any], second: t.List[t.Any], keys: t.List[t.
         for y in second:
             yield ['tuple', x, y]
             yield ['tuple', y, x]
-            if unionable:
+            if unionable and x != y:
                 yield ['union', x, y]
                 yield ['union', y, x]
             yield ['struct', ['k', x], ['j', y]]
